@@ -83,6 +83,8 @@ theorem src_idx_freeAllTables : type_of% @Ark.GenBridge.Book.freeAllTables_eq :=
 theorem src_idx_freeAllTables_storage : type_of% @Ark.GenBridge.Book.freeAllTables_storage := @Ark.GenBridge.Book.freeAllTables_storage
 /-- what marking a list of tables free does to the table store -/
 theorem src_idx_markFree : type_of% @Ark.GenBridge.Book.markFree_fold := @Ark.GenBridge.Book.markFree_fold
+/-- `archetype.GetTables(relations)` — the lookup a query with relation targets reads — as in the source = the model's `getTables`, whenever the first named relation component is a column of the archetype (otherwise Go's index panic, the model's `none`) -/
+theorem src_idx_getTables : type_of% @Ark.GenBridge.Book.getTables_eq := @Ark.GenBridge.Book.getTables_eq
 
 
 /-! ### End to end (Props/C03Exact): entity sets, over whole histories -/
